@@ -76,24 +76,31 @@ def autosort(identifiers):
     This takes into account `steps_required` and `steps_optional`.
     """
     sorted_identifiers = copy.copy(identifiers)
-    for pid in identifiers:
-        meth = get_func(pid)
-        steps_precursor = []
-        if meth.steps_required is not None:
-            steps_precursor += meth.steps_required
-        if meth.steps_optional is not None:
-            for ostep in meth.steps_optional:
-                if ostep in identifiers:
-                    steps_precursor.append(ostep)
-        for step in steps_precursor:
-            # We have a requirement, check whether it is fulfilled
-            cix = sorted_identifiers.index(pid)
-            rix = sorted_identifiers.index(step)
-            if rix > cix:
-                # We pop the wrong requirement and insert it before
-                # the current pid.
-                sorted_identifiers.remove(step)
-                sorted_identifiers.insert(cix, step)
+    # Moving a precursor in front of a step may place it in front of
+    # one of its own precursors. Repeat the insertion pass until the
+    # order does not change anymore (at most once per identifier).
+    for _ in range(len(identifiers) + 1):
+        previous_identifiers = copy.copy(sorted_identifiers)
+        for pid in previous_identifiers:
+            meth = get_func(pid)
+            steps_precursor = []
+            if meth.steps_required is not None:
+                steps_precursor += meth.steps_required
+            if meth.steps_optional is not None:
+                for ostep in meth.steps_optional:
+                    if ostep in identifiers:
+                        steps_precursor.append(ostep)
+            for step in steps_precursor:
+                # We have a requirement, check whether it is fulfilled
+                cix = sorted_identifiers.index(pid)
+                rix = sorted_identifiers.index(step)
+                if rix > cix:
+                    # We pop the wrong requirement and insert it before
+                    # the current pid.
+                    sorted_identifiers.remove(step)
+                    sorted_identifiers.insert(cix, step)
+        if sorted_identifiers == previous_identifiers:
+            break
 
     # Perform a sanity check
     check_order(sorted_identifiers)
